@@ -9,6 +9,7 @@ import extract
 import renames
 names = set()
 records = {}
+closures = {}
 for cfg in extract.THOROUGH:
     out, sha = extract.facts_path(cfg)
     for fn in ("jubako.lib.json", "jbk.bin.json"):
@@ -19,5 +20,9 @@ for cfg in extract.THOROUGH:
                 names.add(f["name"])
             for k, v in renames.baseline_records(fns).items():
                 records.setdefault(k, v)
-json.dump({"functions": sorted(names), "records": records}, open(os.path.join(HERE, "baseline_functions.json"), "w"), indent=0)
+            for k, v in renames.baseline_closures(fns).items():
+                for fp in v:
+                    if fp not in closures.setdefault(k, []):
+                        closures[k].append(fp)
+json.dump({"functions": sorted(names), "records": records, "closures": closures}, open(os.path.join(HERE, "baseline_functions.json"), "w"), indent=0)
 print(len(names), "functions")
